@@ -530,6 +530,7 @@ EGLPNUM_TYPENAME_QSLIB_INTERFACE EGLPNUM_TYPENAME_QSdata *EGLPNUM_TYPENAME_QScre
 	p->pricing = 0;
 	p->basis = 0;
 	p->cache = 0;
+	p->name = 0;
 	p->qstatus = QS_LP_UNSOLVED;
 	p->factorok = 0;
 
